@@ -65,6 +65,14 @@ const MaxThreads = 16
 type LockModel struct {
 	Writer  int32 // thread id + 1, 0 = free
 	Readers int32
+	// Rel really unlocks the lock behind the model (write or read side); set by the shim.  Used
+	// when a run is over and an ended thread still holds the lock (see Run).
+	Rel func(write bool)
+}
+
+type heldLock struct {
+	m     *LockModel
+	write bool
 }
 
 // Timer is a simulated ticker or one-shot timer.
@@ -99,6 +107,8 @@ type thread struct {
 	burn      int
 	writes    int
 	held      int // locks of the code under test this thread holds (lock model)
+	locks     [6]heldLock
+	nlocks    int
 	killSteps int // scheduling points passed after the run was over (see killYield)
 	exiting   bool
 	bounded   bool // the operation in progress must finish by itself (not a wait-forever call)
@@ -182,6 +192,7 @@ type Result struct {
 	Ticks         int
 	FairRounds    int
 	Burns         int
+	ForcedUnlocks int // locks released on behalf of threads that ended holding them
 	BoundedRounds int // retry rounds granted to self-terminating calls after the others gave up
 	Froze         bool
 	SimNs         int64
@@ -311,22 +322,41 @@ func waitTurn(t int32) {
 const killStepLimit = 200
 
 //go:norace
+func (th *thread) noteHeld(m *LockModel, write bool) {
+	th.held++
+	if th.nlocks < len(th.locks) {
+		th.locks[th.nlocks] = heldLock{m, write}
+		th.nlocks++
+	}
+}
+
+//go:norace
+func (th *thread) noteReleased(m *LockModel, write bool) {
+	if th.held > 0 {
+		th.held--
+	}
+	for i := th.nlocks - 1; i >= 0; i-- {
+		if th.locks[i].m == m && th.locks[i].write == write {
+			copy(th.locks[i:], th.locks[i+1:th.nlocks])
+			th.nlocks--
+			return
+		}
+	}
+}
+
+//go:norace
 func killApply(th *thread, k Kind, m *LockModel) {
 	switch k {
 	case KUnlock:
 		if m != nil {
 			m.Writer = 0
 		}
-		if th.held > 0 {
-			th.held--
-		}
+		th.noteReleased(m, true)
 	case KRUnlock:
 		if m != nil && m.Readers > 0 {
 			m.Readers--
 		}
-		if th.held > 0 {
-			th.held--
-		}
+		th.noteReleased(m, false)
 	}
 }
 
@@ -552,14 +582,14 @@ func TryAcquire(m *LockModel, write bool) bool {
 	if write {
 		if m.Writer == 0 && m.Readers == 0 {
 			m.Writer = s.cur + 1
-			s.th[s.cur].held++
+			s.th[s.cur].noteHeld(m, true)
 			return true
 		}
 		return false
 	}
 	if m.Writer == 0 {
 		m.Readers++
-		s.th[s.cur].held++
+		s.th[s.cur].noteHeld(m, false)
 		return true
 	}
 	return false
@@ -800,22 +830,18 @@ func (s *Sim) dispatch(t int) {
 	switch k {
 	case KLock:
 		th.lock.Writer = int32(t) + 1
-		th.held++
+		th.noteHeld(th.lock, true)
 	case KRLock:
 		th.lock.Readers++
-		th.held++
+		th.noteHeld(th.lock, false)
 	case KUnlock:
 		th.lock.Writer = 0
-		if th.held > 0 {
-			th.held--
-		}
+		th.noteReleased(th.lock, true)
 	case KRUnlock:
 		if th.lock.Readers > 0 {
 			th.lock.Readers--
 		}
-		if th.held > 0 {
-			th.held--
-		}
+		th.noteReleased(th.lock, false)
 	case KGosched:
 		if th.spinEpoch == s.wEpoch {
 			th.burn++     // a retry that cannot observe anything new ("burning" attempts);
@@ -917,6 +943,25 @@ func Run(cfg Config, n int, body func(int)) Result {
 		}
 	}
 	joinWG.Wait()
+	// An ended thread may still hold a lock (it was blocked for good, or did not get out of its
+	// critical section within the limit).  If the lock belongs to the instance it dies with the
+	// instance; a package-level lock would stay locked in every later run of this process, so
+	// the real lock is released on the dead thread's behalf.
+	for _, t := range s.res.Unfinished {
+		th := &s.th[t]
+		for i := th.nlocks - 1; i >= 0; i-- {
+			if hl := th.locks[i]; hl.m != nil && hl.m.Rel != nil {
+				if hl.write {
+					hl.m.Writer = 0
+				} else if hl.m.Readers > 0 {
+					hl.m.Readers--
+				}
+				hl.m.Rel(hl.write)
+				s.res.ForcedUnlocks++
+			}
+		}
+		th.nlocks = 0
+	}
 	for t := 0; t < n; t++ {
 		if s.th[t].panicMsg != "" {
 			s.res.Panics = append(s.res.Panics, "t"+itoa(t)+": "+s.th[t].panicMsg+"\n"+s.th[t].panicStk)
